@@ -356,6 +356,13 @@ fn open_events(prof: &str, agc: &str, max_all: usize, seed: u64) -> Result<Value
         for _ in 0..max_all.saturating_sub(600) {
             v.push(r.gen_range(0..len));
         }
+        // every crash state whose trailing 8 bytes read as a plausible directory length (<= what precedes them): these get past
+        // the reader's first range check, so part bytes are parsed as a directory
+        for n in 8..len {
+            if u64::from_le_bytes(bytes[n - 8..n].try_into().unwrap()) <= (n - 8) as u64 {
+                v.push(n);
+            }
+        }
         v
     };
     offs.sort();
